@@ -13,11 +13,14 @@ L0_STD = "assumed std specs added by hand: Entry::or_default, Option::{copied,or
 L1_AMOUNT = ("Amount's loops over its HashMap (round_mut, negate, check_div, mul_assign, add_assign, sub_assign, remove_zero_entries, maybe_pair; formerly assumed L1 contracts) are now PROVED on text obtained by the "
              "mechanical loop rewrites R25 (iter_mut -> key snapshot + get/insert), R25b (into_iter -> entry snapshot), R25c (retain -> key snapshot + remove), R24 (zip/skip/next -> first two entries); what stays ASSUMED is "
              "std's iteration contract in vx/prelude/hashmap_iter_models.rs (every entry exactly once in an unspecified order; two iter() calls over an unmodified map agree) and that `x op= y` on `&mut Decimal` forwards to Decimal (R26)")
-L1_BOOK = "assumed contracts (L1): ComputedPosting::{compute_from_syntax, calculate_converted_amount} (closures over &mut ctx + Option::transpose), Evaluable::eval_mut as a deterministic function of (expr, ctx) that only extends the stores, PriceRepositoryBuilder::insert_impl (requires non-zero divisor)"
+L1_BOOK = ("assumed (L1): Evaluable::eval_mut as a deterministic function of (expr, ctx) that only extends the stores (its recursion, eval_visit, is proved in group evalvisit); that ComputedPosting::compute_from_syntax is a FUNCTION of (written amount, context) "
+           "(`computed_of` names its result in process_posting's contract) - every other clause of its contract is PROVED on the extracted body (renamed copy `compute_from_syntax(body)`, rule R34b: `.map(..).transpose()?` -> match); "
+           "ComputedPosting::calculate_converted_amount is proved (R34c); PriceRepositoryBuilder::insert_impl is an assumed contract in group bookkeep (requires non-zero divisor; its division slice is checked there) and proved on its real body in group prices")
 STUBS = "hand-written stand-ins for GAT syntax types (vx/prelude/syntax_stub.rs) and ReportContext (ctx_stub.rs): exactly the fields read; rustc type-checks extracted bodies against them"
 
 BOOK_UNITS_C01 = ["check_balance", "ComputedPosting::calculate_balance_amount", "Exchange::is_zero", "Exchange::exchange", "Exchange::try_from_syntax",
-                  "posting_price_event", "add_transaction", "PriceRepositoryBuilder::insert_price", "callsite:insert_impl division"]
+                  "posting_price_event", "add_transaction", "PriceRepositoryBuilder::insert_price", "callsite:insert_impl division",
+                  "ComputedPosting::compute_from_syntax(body)", "posting_cost_exchange", "posting_lot_exchange", "ComputedPosting::calculate_converted_amount"]
 
 PROPS = {
     "C01": {
@@ -64,7 +67,7 @@ PROPS = {
     },
     "C04": {
         "level": "proof",
-        "verus": [("daterange", None), ("register", None), ("balance", None), ("query", ["Ledger::balance", "Balance::round"]), ("bookkeep", ["process_posting", "add_transaction"]),
+        "verus": [("daterange", None), ("register", None), ("balance", None), ("query", None), ("bookkeep", ["process_posting", "add_transaction", "ProcessAccumulator::process", "ProcessAccumulator::new"]),
                   ("amounts", ["AddAssign<Amount> for Amount", "Amount::remove_zero_entries", "Amount::set_partial", "AddAssign<PostingAmount> for Amount", "AddAssign<SingleAmount> for Amount", "TryFrom<&Amount> for PostingAmount"])],
         "family": ("c04", {"quick": [], "thorough": []}),
         "explanation": "Verus proves (a) DateRange::contains is exactly start <= d < end with open ends as infinity, adjacent windows partition their union and empty windows contain nothing, "
